@@ -8,6 +8,7 @@ import ParryModel.C16.Theorems4
 import ParryModel.C16.Theorems5
 import ParryModel.C16.Theorems6
 import ParryModel.C16.Theorems7
+import ParryModel.C16.Theorems8
 /-!
 # C16 property theorems: ear clipping and Hertel–Mehlhorn, for every linearly ordered field.
 
